@@ -25,10 +25,12 @@ NearVals(a, b) == a[2] >= 0 /\ b[2] >= 0 /\ LET x == To16(a) - To16(b) IN (IF x 
 \* badly scaled input: the matrix times 2^+-400 factorizes as well, and its log-determinant moves by exactly n*400*ln 2
 \* (the harness subtracts that), although the determinant itself is then outside the floating-point range for n >= 3
 \* third variant: scaled to the bottom of the normal range (entries below the pivots become subnormal); a pivot that is
-\* itself subnormal may be reported as failure - but a reported success must give the same solution and log-determinant
+\* itself subnormal may be reported as failure - but a reported success must give the same log-determinant.  The solution is
+\* compared (exactly) in the first two variants only: in the third, entries below the pivots lose their low bits to the
+\* subnormal spacing, so the solved system is a slightly different one (seen at order 4 in the thorough tier)
 ScaledOK(e) == \A i \in 1..Len(e.scaled) :
                  /\ (i <= 2 => e.scaled[i].rc = 0)
-                 /\ (e.scaled[i].rc = 0 => NearVals(e.scaled[i].l2, e.lnd) /\ e.scaled[i].x = e.x)
+                 /\ (e.scaled[i].rc = 0 => NearVals(e.scaled[i].l2, e.lnd) /\ (i <= 2 => e.scaled[i].x = e.x))
 
 PluOK(e) ==
   LET n == e.n  A == Rs(e.A)  L == Rs(e.L)  U == Rs(e.U)  inv == Rs(e.inv)  b == Rs(e.b)  x == Rs(e.x)  det == RDy(e.det)  dA == IF n <= 5 THEN DetR(A, n) ELSE RMul(RQ(e.sign), DiagProd(U, n, n)) IN
